@@ -378,8 +378,14 @@ type keyline struct {
 	loc gts.Location
 }
 
+// isFeatureKeyByte tells whether c may appear in an INSDC feature key: letters,
+// digits, `_`, `-`, `'` and `*` (5'UTR, D-loop, -10_signal).
+func isFeatureKeyByte(c byte) bool {
+	return ascii.IsSnake(c) || c == '-' || c == '\'' || c == '*'
+}
+
 func featureKeylineParser(prefix string, depth int) pars.Parser {
-	word := pars.Word(ascii.IsSnake).Error(errFeatureKey)
+	word := pars.Word(isFeatureKeyByte).Error(errFeatureKey)
 	p := []byte(prefix)
 	return func(state *pars.State, result *pars.Result) error {
 		if err := state.Request(len(p)); err != nil {
@@ -419,7 +425,7 @@ func featureKeylineParser(prefix string, depth int) pars.Parser {
 func INSDCTableParser(prefix string) pars.Parser {
 	firstParser := pars.Seq(
 		prefix, pars.Spaces,
-		pars.Word(ascii.IsSnake).Error(errFeatureKey), pars.Spaces,
+		pars.Word(isFeatureKeyByte).Error(errFeatureKey), pars.Spaces,
 		gts.ParseLocation, pars.EOL,
 	).Map(func(result *pars.Result) error {
 		children := result.Children
